@@ -7,6 +7,7 @@ import (
 	"fmt"
 	"os"
 	"sort"
+	"time"
 
 	"github.com/koron-go/z80/verif/mon"
 	"github.com/koron-go/z80/verif/props"
@@ -93,6 +94,11 @@ func main() {
 	rep := mon.NewReport(*prop, *tier, *seed, props.Levels[*prop])
 	rep.Replay = *replay != ""
 	ctx := &props.Ctx{Tier: *tier, Seed: *seed, Replay: replayArg, Self: self, Tmp: scratch, R: rep}
+	stall := 900 * time.Second
+	if v, err := time.ParseDuration(os.Getenv("VERIF_STALL")); err == nil && v > 0 {
+		stall = v
+	}
+	props.StartStallWatchdog(*prop, stall)
 	fn(ctx)
 	code := rep.Finish()
 	if wantSig != "" {
